@@ -41,6 +41,14 @@ class PathInfeasible(Exception):
     pass
 
 
+class Poison:
+    """value of a module-level name whose defining statement could not be executed by the model: any use of the
+    name makes the path undecided; definitions that do not depend on it are unaffected"""
+
+    def __init__(self, reason):
+        self.reason = reason
+
+
 class PyExc(Exception):
     """a Python exception raised by the program under analysis"""
 
@@ -48,6 +56,9 @@ class PyExc(Exception):
         Exception.__init__(self, cls)
         self.cls = cls
         self.msg = msg
+
+    def __str__(self):
+        return "%s(%s)" % (self.cls, self.msg if isinstance(self.msg, str) else "")
 
 
 EXC_PARENTS = {
@@ -141,6 +152,16 @@ class ClassValue:
 
     def __repr__(self):
         return "<class %s>" % self.qualname
+
+
+class StaticMethod:
+    def __init__(self, fn):
+        self.fn = fn
+
+
+class ClassMethod:
+    def __init__(self, fn):
+        self.fn = fn
 
 
 class Builtin:
@@ -1154,6 +1175,8 @@ class Engine:
                 v = e.vars[name]
                 if v is UNBOUND:
                     raise PyExc("UnboundLocalError", name)
+                if isinstance(v, Poison):
+                    raise Unsupported("%s: module-level definition outside the modelled subset (%s)" % (name, v.reason))
                 if isinstance(v, SIte) and _has_unbound(v):
                     # bound on some merged paths only: reading it raises exactly on the others
                     if self.decide(_unbound_cond(v)):
@@ -1167,6 +1190,10 @@ class Engine:
         b = self.loader.builtins.get(name)
         if b is not None or name in self.loader.builtins:
             return b
+        import builtins as _pybuiltins
+        if hasattr(_pybuiltins, name):
+            # a real Python builtin the model does not provide: outside the subset, not a NameError of the program
+            raise Unsupported("builtin %s is not modelled" % name)
         raise PyExc("NameError", name)
 
     def e_Name(self, node, env):
@@ -1189,7 +1216,11 @@ class Engine:
         d = {}
         for k, v in zip(node.keys, node.values):
             if k is None:
-                raise Unsupported("dict unpacking")
+                src = self.force(self.eval(v, env))
+                if not isinstance(src, SDict):
+                    raise Unsupported("dict unpacking of %s" % type(src).__name__)
+                d.update(src.d)
+                continue
             kk = self.force(self.eval(k, env))
             if isinstance(kk, Sym):
                 raise Unsupported("symbolic dict key in literal")
@@ -1219,7 +1250,10 @@ class Engine:
     def getattr(self, obj, name):
         if isinstance(obj, ModuleValue):
             if name in obj.globals:
-                return obj.globals[name]
+                v = obj.globals[name]
+                if isinstance(v, Poison):
+                    raise Unsupported("%s.%s: module-level definition outside the modelled subset (%s)" % (obj.name, name, v.reason))
+                return v
             sub = self.loader.try_submodule(obj, name)
             if sub is not None:
                 return sub
@@ -1239,6 +1273,10 @@ class Engine:
             m = obj.cls.lookup(name)
             if m is None:
                 raise PyExc("AttributeError", name)
+            if isinstance(m, StaticMethod):
+                return m.fn
+            if isinstance(m, ClassMethod):
+                return BoundMethod(m.fn, obj.cls)
             if isinstance(m, FuncValue):
                 return BoundMethod(m, obj)
             return m
@@ -1246,6 +1284,10 @@ class Engine:
             m = obj.lookup(name)
             if m is None:
                 raise PyExc("AttributeError", name)
+            if isinstance(m, StaticMethod):
+                return m.fn
+            if isinstance(m, ClassMethod):
+                return BoundMethod(m.fn, obj)
             return m
         from . import builtins_model as BM
         meth = BM.get_method(self, obj, name)
@@ -1302,6 +1344,31 @@ class Engine:
         if r is not NotImplemented:
             return r
         n = self.seq_len(obj)
+        if st is not None and self.concretize_int(self.force(st), "slice step") != 1:
+            # extended slice: pick the elements one by one (concrete bounds)
+            stc = self.concretize_int(self.force(st), "slice step")
+            if stc == 0:
+                raise PyExc("ValueError", "slice step cannot be zero")
+            lo_c = None if lo is None else self.concretize_int(self.force(lo), "slice bound")
+            hi_c = None if hi is None else self.concretize_int(self.force(hi), "slice bound")
+            idxs = list(range(*slice(lo_c, hi_c, stc).indices(n)))
+            if isinstance(obj, str):
+                return obj[lo_c:hi_c:stc]
+            if isinstance(obj, tuple):
+                return obj[lo_c:hi_c:stc]
+            if isinstance(obj, SBin):
+                return sbin_or_str([obj.cells[k] for k in idxs])
+            if isinstance(obj, SHex):
+                cells = []
+                for k in idxs:
+                    cells.extend(obj.cells[4 * k: 4 * k + 4])
+                return V.shex_or_str(cells, [obj.upper[k] for k in idxs]) if idxs else ""
+            if isinstance(obj, SStr):
+                chars = obj.chars()
+                return mkstr([chars[k] for k in idxs])
+            if isinstance(obj, SList):
+                return self.new_heap(type(obj)([obj.items[k] for k in idxs]))
+            raise Unsupported("extended slice of %r" % type(obj).__name__)
         a, b = self.slice_bounds(n, lo, hi, st)
         if b < a:
             b = a
@@ -1736,6 +1803,26 @@ class Engine:
             return c_or(*conds)
         if isinstance(container, Iterator):
             return c_or(*[self.veq(item, x) for x in container.items[container.pos:]])
+        if isinstance(container, range):
+            item = self.force(item)
+            if isinstance(item, (bool, SBool)):
+                item = self.to_int(item)
+            if isinstance(item, int):
+                return item in container
+            if isinstance(item, SInt):
+                a, b, st = container.start, container.stop, container.step
+                if len(container) == 0:
+                    return False
+                if st > 0:
+                    c = z3.And(item.term >= a, item.term < b)
+                else:
+                    c = z3.And(item.term <= a, item.term > b)
+                if abs(st) != 1:
+                    c = z3.And(c, (item.term - a) % abs(st) == 0)
+                return c
+            if isinstance(item, (Fraction, SReal)):
+                return c_or(*[self.veq(item, x) for x in container]) if len(container) <= 64 else self._unsupported("real in long range")
+            return False
         if container is None or is_num(container):
             raise PyExc("TypeError", "argument is not iterable")
         from . import builtins_model as BM
@@ -1743,6 +1830,9 @@ class Engine:
         if r is not NotImplemented:
             return r
         raise Unsupported("'in' on %r" % type(container).__name__)
+
+    def _unsupported(self, what):
+        raise Unsupported(what)
 
     # ----- comprehension
     def comp_run(self, generators, env, idx, emit):
